@@ -148,7 +148,8 @@ def run(ctx):
     # ------------------------------------------------------------------- R3
     ctx.rule("C13.R3", "memory_maps: bounded header split keeps paths with spaces; "
              "missing path -> [anon]; each figure is the smaps key named like the "
-             "tuple field, kB*1024", floor=12)
+             "tuple field, kB*1024; ' (deleted)' stripped only for paths that do "
+             "not exist (readlink() and memory_maps() agree)", floor=14)
     mm = repo.func(pm, "Process.memory_maps")
     gb = repo.func(pm, "Process.memory_maps.get_blocks")
     splits = [c for f in (mm, gb) for c in calls_in(f.node)
@@ -209,6 +210,57 @@ def run(ctx):
     else:
         ctx.fail("C13.R3", "anon", mm.file, mm.node.lineno, mm.qual,
                  "a mapping without a path is not reported as '[anon]'")
+
+    # sibling rule (readlink() and memory_maps()): the kernel's ' (deleted)' mark is
+    # stripped only when no file of that literal name exists
+    from ..core.cfg import decompose_guard
+    nstrip = 0
+    for fi in repo.all_funcs(pm):
+        if not any(isinstance(x, ast.Constant) and x.value == " (deleted)"
+                   for x in ast.walk(fi.node)):
+            continue
+        if any(p_.node is not fi.node and any(x is fi.node for x in ast.walk(p_.node))
+               for p_ in repo.all_funcs(pm)):
+            continue        # nested: analysed with its parent
+        fcfg = A.cfg(fi)
+        for st in ast.walk(fi.node):
+            strip = None
+            if isinstance(st, ast.Assign) and isinstance(st.value, ast.Subscript) \
+                    and isinstance(st.value.slice, ast.Slice) \
+                    and norm_stmt(st.value.slice).replace(" ", "") in (":-10", ":-len('(deleted)')"):
+                strip = st
+            elif isinstance(st, ast.Assign) and isinstance(st.value, ast.Call) \
+                    and isinstance(st.value.func, ast.Attribute) \
+                    and st.value.func.attr in ("removesuffix", "replace") and st.value.args \
+                    and isinstance(st.value.args[0], ast.Constant) \
+                    and st.value.args[0].value == " (deleted)":
+                strip = st
+            if strip is None:
+                continue
+            nstrip += 1
+            key = f"deleted-suffix:{fi.qual}"
+            ends = exists = False
+            for n in fcfg.nodes_of(strip):
+                for e, pol, _ in fcfg.guards(n):
+                    for atom, val in decompose_guard(e, pol):
+                        txt = norm_stmt(atom)
+                        if "endswith" in txt and "' (deleted)'" in txt and val:
+                            ends = True
+                        if isinstance(atom, ast.Call) and (dotted(atom.func) or "").split(".")[-1] in (
+                                "path_exists_strict", "exists", "lexists", "isfile_strict") \
+                                and val is False:
+                            exists = True
+            if ends and exists:
+                ctx.ok("C13.R3", key, sample="strip only if endswith(' (deleted)') and the "
+                       "path does not exist")
+            else:
+                ctx.fail("C13.R3", key, fi.file, strip.lineno, fi.qual,
+                         "the ' (deleted)' suffix is stripped " +
+                         ("without checking that no file of that name exists: a live file "
+                          "literally named '... (deleted)' is reported under a truncated "
+                          "path (and merged into its sibling's row when grouped)"
+                          if ends else "without testing for the suffix"))
+    ctx.require(nstrip >= 2, f"only {nstrip} ' (deleted)' strip sites found")
 
     # ------------------------------------------------------------------- R4
     ctx.rule("C13.R4", "grouping: rows are keyed by slot 2 (path) and slots 3.. are "
